@@ -15,6 +15,6 @@ CONSTANTS
     REKEEP = FALSE
     MAXSAVES = 2
     ImportCleans = TRUE
-    UnmarshalMode = "merge"
+    UnmarshalMode = "replace"
     LoadSkipsBad = TRUE
 INVARIANT LoadLaw
